@@ -97,13 +97,15 @@ def d1(chk, prog):
 
     fi = prog.fn(f"{SF}.ampdel")
     tb = Table(chk, "filter-levels", "ampdel: -1 <=> cn = 0, +1 <=> cn >= 5, else 0; then keep cn = 0 or cn >= 5", fi.loc(), fi.qn)
-    cns = [0, 1, 2, 4, 5, 6, 9]
+    cns = [0, 1, 2, 4, 5, 6, 9, Fr(1, 2), Fr(9, 2)]            # (a pooled run may carry a fractional copy number: 1/2 is not a deep deletion, 9/2 not an amplification)
     W.reset()
     g = seg_table({"cn": cns})
     merged = seg_table({"cn": cns})
     r = tb.guard(lambda: run_filter(prog, "ampdel", g, result=merged), "ampdel")
     if r is not None:
         lv = r[1].get("levels")
+        if lv is not None and not isinstance(lv, (list, tuple)):
+            raise AnalysisError(f"C14-D1 ampdel: the levels handed to the squashing step are not an array the model understands ({lv!r})")
         for i, c in enumerate(cns):
             want = -1 if c == 0 else (1 if c >= 5 else 0)
             tb.cell(lv is not None and same(lv[i], want), dict(cn=c, level=repr(lv[i]) if lv else None, want=want))
